@@ -8,7 +8,7 @@ for d in "$root"/C*-*/; do
   if ! git -C /repo apply --check "$d/patch.diff" 2>/dev/null; then echo "== $id: PATCH-DOES-NOT-APPLY" >> "$log"; continue; fi
   git -C /repo apply "$d/patch.diff"
   echo "== $id" >> "$log"
-  (cd /verif && timeout 1500 tools/check $prop quick 2>&1 | grep -E "VIOLATION|KNOWN-FINDING|failing input|broken|infrastructure|\] V " | head -8) >> "$log"
+  (cd /verif && timeout 1500 tools/check $prop quick > "$d/check.out" 2>&1; grep -E "VIOLATION|failing input|broken|infrastructure" "$d/check.out" | head -7; grep -E "\] V " "$d/check.out" | tail -1; echo "known-findings printed: $(grep -c KNOWN-FINDING "$d/check.out")") >> "$log"
   git -C /repo apply -R "$d/patch.diff" || echo "!! REVERSE FAILED for $id" >> "$log"
 done
 echo DONE >> "$log"
